@@ -2,7 +2,7 @@
 Real code (ast + builder packages of /repo, called in-process by harness/cmd/pvmid) vs the Lean model Mid,
 and the implementation's verdict vs the independent specification Mid.Spec.leftRec."""
 import os, subprocess, time, json, hashlib, re
-from . import core, findings
+from . import core, findings, h1
 from .core import log
 from .props_h1 import TRUSTED
 
@@ -73,6 +73,21 @@ def classify(cl, il, ml):
     return ("viol", "rejected (verdict %s) although the specification finds no same-position cycle" % v)
 
 
+def differs_rt(prop, cfg, casefile, visible=False):
+    """exit 0 iff the implementation still crashes / does not return on the case while the model returns"""
+    header, lines = core.read_cases(casefile)
+    if not lines:
+        return 1
+    try:
+        il, ml = h1.run_single(header, lines[0])
+    except Exception:
+        return 1
+    ik, mk = il.split(" ", 3)[2], ml.split(" ", 3)[2]
+    if h1.inconclusive(mk):
+        return 1
+    return 0 if (ik == "crash" or h1.inconclusive(ik)) else 1
+
+
 def run_c07(prop, cfg, tier, seed):
     t0 = time.time()
     core.ensure_built()
@@ -119,9 +134,35 @@ def run_c07(prop, cfg, tier, seed):
             known_s.setdefault(c[1], (cl, il, c[2]))
         else:
             obs[c[1]] = obs.get(c[1], 0) + 1
+    # ---- the consequence clause: a parser generated WITHOUT left-recursion support, for a grammar without a
+    # same-position cycle, returns on every input (no unbounded re-entry). Generated non-left-recursive cases on the
+    # real runtime (template variants without the left-recursion code) against the runtime model: only termination
+    # is compared here (a crash = Go stack overflow, or a timeout where the model returns).
+    rt_sr, rt_header = h1.StreamResult(), None
+    wd = core.workdir(prop + "_rt")
+    novar = [v for v in core.ALL_VARIANTS if v[5] == "0"]
+    for k, (prof, nq_rt, nt_rt) in enumerate((("core", 2500, 60000), ("utf8", 1500, 30000), ("throw", 500, 10000))):
+        cf = os.path.join(wd, prof + ".gen")
+        core.gen_cases(prof, seed, nq_rt if tier == "quick" else nt_rt, cf, variants=novar, id0=(k + 1) * 400_000 + 1)
+        rt_header, lines = core.read_cases(cf)
+        h1.run_stream(wd, rt_header, lines, (lambda r: ()), None, rt_sr, prof)
     lst = findings.listed(prop)
     printed, kf = [], []
     nviol = 0
+    for (cl, il, ml, why) in rt_sr.disagree[:3]:
+        nviol += 1
+        scl = h1.shrink(wd, rt_header, cl, prop, nviol, maxtests=40)
+        try:
+            sil, sml = h1.run_single(rt_header, scl)
+        except Exception:
+            scl, sil, sml = cl, il, ml
+        msg = "a parser generated without left-recursion support does not return on this input although the grammar has no same-position cycle and the runtime model returns: " + why
+        pth = core.write_replay(prop, "runtime_%s" % hashlib.md5(scl.encode()).hexdigest()[:10],
+                                {"property": prop, "kind": "runtime-termination", "why": msg, "header": rt_header, "case": scl,
+                                 "pretty": h1.pretty_case(rt_header, scl), "impl": sil, "model": sml,
+                                 "property_fails_on_impl": [msg], "replay_cmd": "./check --replay <this file>"})
+        printed.append("VIOLATION property=%s replay=%s" % (prop, pth))
+    nviol = len(rt_sr.disagree)
 
     def report(kind, cl, il, ml, why):
         nonlocal nviol
@@ -165,7 +206,9 @@ def run_c07(prop, cfg, tier, seed):
            "trusted_base": TRUSTED[:2] + ["the hand-written analysis model lean/PigeonVerif/Model/Mid.lean, tied to ast.NullableVisit/InitialNames and builder/left_recursion.go, scc.go by the mid correspondence stream (node-by-node flags, first graph, verdict, for chosen visiting orders)",
                                           "the specification Mid.Spec.leftRec (Ford-style static same-position reachability, throw-free fragment)", "harness/cmd/pvmid"],
            "theorems": audit["theorems"], "axioms": audit["axioms"],
-           "evaluations": len(cases), "distinct_nontrivial": len(distinct),
+           "evaluations": len(cases) + rt_sr.cases, "distinct_nontrivial": len(distinct) + rt_sr.nontrivial,
+           "runtime_termination_stream": {"cases": rt_sr.cases, "non_terminating_or_crashing_on_impl_only": len(rt_sr.disagree),
+                                          "inconclusive": rt_sr.inconclusive, "result_kinds": rt_sr.kinds},
            "rule": "random grammars of 1-4 rules biased towards references behind nullable prefixes, predicates and repetitions, each with up to 4 visiting orders; distinct = distinct (grammar, order)",
            "traces_validated_against_impl": len(cases) - len(disagree),
            "model_impl_disagreements": len(disagree), "oracle_violations": len(viol),
